@@ -2,8 +2,16 @@
 open Util
 open Pcapcommon
 
+(* SetSnaplen schedule (op ss:<call>.<value>,...) as one optional value per read call *)
+let snaps : (int * int) list ref = ref []
+let sched_of (l : (int * int) list) : BinNums.coq_Z option list =
+  if l = [] then [] else
+    let m = Stdlib.List.fold_left (fun a (k, _) -> max a k) 0 l in
+    Stdlib.List.init (m + 1) (fun k -> match Stdlib.List.assoc_opt k l with Some v -> Some (z_of_int v) | None -> None)
+
 let parse (ops : string list) : string * bool * bool * int * PcapModel.chunk list =
   let fmt = ref "pcap" and zc = ref false and gz = ref false and n = ref 0 in
+  snaps := [];
   let chunks = ref [] in
   Stdlib.List.iter (fun op ->
     let name, arg = match String.index_opt op ':' with
@@ -17,6 +25,8 @@ let parse (ops : string list) : string * bool * bool * int * PcapModel.chunk lis
     | "n" -> n := int_of_string arg
     | "c" -> chunks := PcapModel.Chunk (bytes_of_hex arg) :: !chunks
     | "fail" -> chunks := PcapModel.Fail :: !chunks
+    | "ss" -> snaps := Stdlib.List.map (fun it -> match split_on '.' it with
+        | [k; v] -> (int_of_string k, int_of_string v) | _ -> failwith ("c15pcap ss: " ^ it)) (split_on ',' arg)
     | _ -> failwith ("c15pcap op: " ^ op)) ops;
   (!fmt, !zc, !gz, !n, Stdlib.List.rev !chunks)
 
@@ -33,7 +43,8 @@ let run (id : string) (ops : string list) (out : out_channel) =
         let (((h, _), rs), _) = PcapModel.snoop_run !zc fuel s in
         emit (snoop_hdr_str h); rs
       end else begin
-        let (((h, _), rs), _) = PcapModel.pcap_run !zc fuel s in
+        let (((h, _), rs), _) =
+          if !snaps = [] then PcapModel.pcap_run !zc fuel s else PcapModel.pcap_run_sn !zc fuel (sched_of !snaps) s in
         emit (pcap_hdr_str h); rs
       end in
     Stdlib.List.iter (fun (r, _) -> emit (res_str r)) results
@@ -56,6 +67,10 @@ let to_coq (idx : int) (ops : string list) (out : out_channel) =
        | (((Base.Ok st, _), _), _) ->
          coq_example_named out (Printf.sprintf "sample_%d_lt" idx) ("snoop_linktype " ^ coq_sstate st) (coq_option coq_z (PcapModel.snoop_linktype st))
        | _ -> ())
+    end else if !snaps <> [] then begin
+      let sc = sched_of !snaps in
+      let args = Printf.sprintf "%s %s %s %s" (coq_bool zc) (coq_nat fuel) (coq_list (coq_option coq_z) sc) (coq_list coq_chunk s) in
+      coq_example out idx ("pcap_run_sn " ^ args) (coq_run_result coq_rstate (PcapModel.pcap_run_sn zc fuel sc s))
     end else
       coq_example out idx ("pcap_run " ^ args) (coq_run_result coq_rstate (PcapModel.pcap_run zc fuel s))
   end
